@@ -209,3 +209,415 @@ Proof.
     + rewrite app_length. lia.
     + cbn [length] in Hf. lia.
 Qed.
+
+(* ======================================================================================
+   The reader model, unfolded
+   ====================================================================================== *)
+Definition w_post (rows cols : Z) (ws : list Z) (len m0 lays2 szd : Z) : wres wview :=
+  let dl := (szd + 8) / 4 in
+  let lays := lays2 / 2 in
+  let record := rows * cols * 4 + 8 in
+  let body := record * 2 * lays + m0 + 8 in
+  if body <=? 0 then WHang else
+  let times := if len <=? dl then -1 else (len - dl - 1) / body in
+  if negb (len mod 4 =? 0) then WErr else
+  if times <=? 0 then WErr else
+  let n := len / 4 in
+  let offset := m0 / 4 + 2 in
+  let block := (rows * cols + 2) * 2 * lays in
+  let parts := map (w_step_view ws n offset block dl (rows * cols)) (map Z.of_nat (seq 0 (Z.to_nat times))) in
+  if forallb (fun p => match p with Some _ => true | None => false end) parts then
+    let ps := flat_map (fun p => match p with Some x => [x] | None => [] end) parts in
+    WOk {| wv_nx := cols; wv_ny := rows; wv_nz := lays; wv_ntimes := times;
+           wv_stamps := map fst ps;
+           wv_u := map (fun p => w_evens (snd p)) ps; wv_v := map (fun p => w_odds (snd p)) ps |}
+  else WErr.
+
+Lemma w_mm_read_unfold rows cols ws len :
+  w_mm_read rows cols ws len =
+  if len <? 12 then WErr else
+  if negb ((getw ws 0 =? 12) || (getw ws 0 =? 8)) then WErr else
+  match rf_next ws len 0 (getw ws 0) with
+  | None => WErr
+  | Some st1 =>
+    match w_walk (S (Z.to_nat len)) ws len (fst (match st1 with Some x => x | None => (0, getw ws 0) end))
+                 (snd (match st1 with Some x => x | None => (0, getw ws 0) end))
+                 (snd (match st1 with Some x => x | None => (0, getw ws 0) end)) 1 with
+    | WErr => WErr
+    | WHang => WHang
+    | WOk (lays2, szd) => w_post rows cols ws len (getw ws 0) lays2 szd
+    end
+  end.
+Proof.
+  unfold w_mm_read, w_post. destruct (len <? 12); [reflexivity|].
+  destruct (negb _); [reflexivity|]. destruct (rf_next ws len 0 (getw ws 0)) as [[[s1 d]|]|]; reflexivity.
+Qed.
+
+Lemma getw_skipn : forall a (l : list Z) i, 0 <= i -> getw (skipn a l) i = getw l (Z.of_nat a + i).
+Proof.
+  induction a as [|a IH]; intros l i Hi; [reflexivity|].
+  destruct l as [|x l]; [unfold getw; rewrite skipn_nil; destruct (Z.to_nat i), (Z.to_nat (Z.of_nat (S a) + i)); reflexivity|].
+  cbn [skipn]. rewrite IH by exact Hi. rewrite (getw_cons x l (Z.of_nat (S a) + i)) by lia. f_equal. lia.
+Qed.
+
+(* ---- cuts inside the first time record: the reader never returns ---------------------------------------- *)
+Lemma w_first_record_cut_hangs c s0 rest len : w_wf c = true -> w_steps c = s0 :: rest ->
+  12 <= len <= w_hdr_bytes c ->
+  w_mm_read (w_ny c) (w_nx c) (firstn (Z.to_nat ((len + 3) / 4)) (w_enc c)) len = WHang.
+Proof.
+  intros W Es Hl. rewrite w_mm_read_unfold.
+  replace (len <? 12) with false by lia.
+  assert (3 <= (len + 3) / 4) by (apply Z.div_le_lower_bound; lia).
+  rewrite getw_firstn by lia.
+  assert (G0 : getw (w_enc c) 0 = w_hdr_bytes c - 8).
+  { rewrite w_enc_steps, Es. cbn [map concat]. unfold w_step_words. rewrite <- !app_assoc.
+    rewrite getw_app_l; [apply hdr_words|]. destruct (hdr_words c s0) as (L & _). rewrite L.
+    unfold w_hdr_bytes. destruct (w_stag c); cbn; lia. }
+  rewrite G0.
+  assert (Hh : w_hdr_bytes c = 20 \/ w_hdr_bytes c = 16) by (unfold w_hdr_bytes; destruct (w_stag c); auto).
+  replace (negb ((w_hdr_bytes c - 8 =? 12) || (w_hdr_bytes c - 8 =? 8))) with false by lia.
+  unfold rf_next at 1. replace (0 + (w_hdr_bytes c - 8) + 8 <? len) with false by lia.
+  cbn [fst snd]. rewrite w_walk_eof by lia. reflexivity.
+Qed.
+
+Lemma firstn_app_cons {A} (a : list A) x b n : (length a < n)%nat ->
+  firstn n (a ++ x :: b) = a ++ x :: firstn (n - length a - 1) b.
+Proof.
+  intros H. rewrite firstn_app, firstn_all2 by lia. f_equal.
+  destruct (n - length a)%nat as [|m] eqn:E; [lia|]. cbn [firstn]. do 2 f_equal. lia.
+Qed.
+
+(* ---- from the first step's dummy marker on: the layer count is found ------------------------------------- *)
+Lemma w_head c s0 rest len : w_wf c = true -> w_steps c = s0 :: rest -> 2 <= w_nx c * w_ny c ->
+  w_body_bytes c + 4 <= len ->
+  let given := firstn (Z.to_nat ((len + 3) / 4)) (w_enc c) in
+  w_mm_read (w_ny c) (w_nx c) given len = w_post (w_ny c) (w_nx c) given len (w_hdr_bytes c - 8) (2 * w_nz c + 1) 4.
+Proof.
+  intros W Es Hrc Hl. cbn zeta.
+  destruct (sizes_facts c W) as (h & Hh & Hrc0 & Hz & EH & ED & EB & ES).
+  assert (Ok0' : wstep_ok c s0).
+  { pose proof (proj2 (proj2 (proj2 (w_wf_parts c W)))) as F. rewrite Es in F. apply (Forall_inv F). }
+  destruct (hdr_words c s0) as (LT & GT0 & _). rewrite EH, four_div_o in LT.
+  destruct (data_rows c W s0 Ok0') as (_ & LD & _ & _).
+  destruct (uv_recs_facts c s0 Ok0') as (LR & FR & _ & _).
+  (* the records of the first step *)
+  destruct (uv_recs (ws_uv s0)) as [|r1 rs] eqn:Er; [cbn [length] in LR; lia|].
+  assert (EDATA : w_DATA s0 = frame1 r1 ++ concat (map frame1 rs)) by (unfold w_DATA; rewrite Er; reflexivity).
+  set (tail := firstn (Z.to_nat ((len + 3) / 4) - length (w_T c s0 ++ w_DATA s0) - 1)
+                      ([w_dummy c; 4] ++ concat (map (w_step_words c) rest))).
+  assert (Hn : w_body_bytes c / 4 + 1 <= (len + 3) / 4).
+  { rewrite EB, four_div_o. apply Z.div_le_lower_bound; lia. }
+  assert (LTD : Z.of_nat (length (w_T c s0 ++ w_DATA s0)) = w_body_bytes c / 4).
+  { rewrite app_length, EB, four_div_o. lia. }
+  assert (Egiven : firstn (Z.to_nat ((len + 3) / 4)) (w_enc c) = w_T c s0 ++ frame1 r1 ++ concat (map frame1 rs) ++ 4 :: tail).
+  { rewrite w_enc_steps, Es. cbn [map concat]. unfold w_step_words at 1.
+    replace ((w_T c s0 ++ w_DATA s0 ++ [4; w_dummy c; 4]) ++ concat (map (w_step_words c) rest))
+      with ((w_T c s0 ++ w_DATA s0) ++ 4 :: ([w_dummy c; 4] ++ concat (map (w_step_words c) rest)))
+      by (rewrite <- !app_assoc; reflexivity).
+    rewrite firstn_app_cons by lia. fold tail. rewrite EDATA, <- !app_assoc. reflexivity. }
+  rewrite Egiven. rewrite w_mm_read_unfold.
+  replace (len <? 12) with false by lia.
+  assert (G0 : getw (w_T c s0 ++ frame1 r1 ++ concat (map frame1 rs) ++ 4 :: tail) 0 = w_hdr_bytes c - 8).
+  { rewrite getw_app_l by lia. exact GT0. }
+  rewrite G0.
+  replace (negb ((w_hdr_bytes c - 8 =? 12) || (w_hdr_bytes c - 8 =? 8))) with false by lia.
+  pose proof (Forall_inv FR) as Lr1. cbn beta in Lr1.
+  assert (Mk : Forall (fun r => marker r = 4 * (w_nx c * w_ny c)) (r1 :: rs)).
+  { eapply Forall_impl; [|exact FR]. intros r Hr. unfold marker. cbn beta in Hr. lia. }
+  unfold rf_next at 1.
+  replace (0 + (w_hdr_bytes c - 8) + 8) with (4 * Z.of_nat (length (w_T c s0))) by lia.
+  replace (4 * Z.of_nat (length (w_T c s0)) <? len) with true by lia.
+  replace (4 * Z.of_nat (length (w_T c s0)) + 4 <=? len) with true by lia.
+  assert (G1 : getw (w_T c s0 ++ frame1 r1 ++ concat (map frame1 rs) ++ 4 :: tail) (4 * Z.of_nat (length (w_T c s0)) / 4)
+               = 4 * (w_nx c * w_ny c)).
+  { rewrite four_div_o. rewrite getw_app_r by lia. rewrite Z.sub_diag. unfold frame1 at 1. cbn [app]. rewrite getw_0.
+    apply (Forall_inv Mk). }
+  rewrite G1. cbn [fst snd].
+  assert (LDr : Z.of_nat (length (frame1 r1) + length (concat (map frame1 rs))) = (w_nx c * w_ny c + 2) * 2 * w_nz c).
+  { rewrite <- app_length, <- EDATA. exact LD. }
+  rewrite (w_walk_frames (4 * (w_nx c * w_ny c)) 4 tail len ltac:(lia) rs (w_T c s0) r1 1 _ Mk).
+  - cbn [length] in LR. f_equal. lia.
+  - rewrite EB in Hl. lia.
+  - cbn [length] in LR. rewrite EB in Hl. nia.
+Qed.
+
+Lemma skipn_plus_w {A} a : forall b (l : list A), skipn (a + b) l = skipn a (skipn b l).
+Proof.
+  induction b as [|b IH]; intros l; [rewrite Nat.add_0_r; reflexivity|].
+  destruct l as [|x l]; [rewrite !skipn_nil; reflexivity|].
+  rewrite Nat.add_succ_r. cbn [skipn]. apply IH.
+Qed.
+
+(* ---- one counted step: the slices taken by __add_variables ----------------------------------------------- *)
+Lemma w_steps_uniform c : w_wf c = true ->
+  Forall (fun b => length b = Z.to_nat (w_step_bytes c / 4)) (map (w_step_words c) (w_steps c)).
+Proof.
+  intros W. apply Forall_forall. intros b Hb. apply in_map_iff in Hb as (s & <- & Hin).
+  pose proof (proj2 (proj2 (proj2 (w_wf_parts c W)))) as F. rewrite Forall_forall in F.
+  pose proof (step_words_length c W s (F s Hin)). lia.
+Qed.
+
+Lemma w_step_view_ok c S1 s S2 N n : w_wf c = true -> w_steps c = S1 ++ s :: S2 ->
+  let h := w_hdr_bytes c / 4 in
+  let block := (w_ny c * w_nx c + 2) * 2 * w_nz c in
+  let t := Z.of_nat (length S1) in
+  (t + 1) * h + t * block + t * 3 + block <= n -> n <= Z.of_nat N ->
+  w_step_view (firstn N (w_enc c)) n h block 3 (w_ny c * w_nx c) t = Some ((ws_time s, ws_date s), uv_recs (ws_uv s)).
+Proof.
+  intros W Es. cbn zeta. intros Hfit HN.
+  destruct (sizes_facts c W) as (h & Hh & Hrc0 & Hz & EH & ED & EB & ES).
+  replace (w_ny c * w_nx c) with (w_nx c * w_ny c) in * by lia.
+  rewrite EH, four_div_o in *.
+  set (block := (w_nx c * w_ny c + 2) * 2 * w_nz c) in *.
+  pose proof (proj2 (proj2 (proj2 (w_wf_parts c W)))) as Fok. rewrite Es in Fok.
+  assert (Oks : wstep_ok c s) by (apply Forall_app in Fok as [_ F]; apply (Forall_inv F)).
+  destruct (hdr_words c s) as (LT & _ & GT1 & GT2). rewrite EH, four_div_o in LT.
+  destruct (data_rows c W s Oks) as (FD & LD & MK & CE). fold block in LD.
+  set (Wd := Z.to_nat (w_step_bytes c / 4)).
+  assert (EWd : Z.of_nat Wd = h + block + 3) by (unfold Wd; rewrite ES, four_div_o; unfold block; lia).
+  (* the file from step |S1| on *)
+  assert (Esk : skipn (length S1 * Wd) (w_enc c) = w_step_words c s ++ concat (map (w_step_words c) S2)).
+  { rewrite w_enc_steps. rewrite (skipn_concat_uniform_gen _ _ _ (w_steps_uniform c W)).
+    rewrite Es, map_app. rewrite <- (map_length (w_step_words c) S1) at 1. rewrite skipn_app_exact. reflexivity. }
+  unfold w_step_view.
+  replace ((Z.of_nat (length S1) + 1) * h + Z.of_nat (length S1) * block + Z.of_nat (length S1) * 3)
+    with (Z.of_nat (length S1 * Wd) + h) in * by nia.
+  replace (Z.of_nat (length S1 * Wd) + h + block <=? n) with true by lia.
+  replace (Z.to_nat (Z.of_nat (length S1 * Wd) + h)) with (Z.to_nat h + length S1 * Wd)%nat by lia.
+  rewrite firstn_skipn_firstn by lia.
+  rewrite skipn_plus_w, Esk. unfold w_step_words at 1. rewrite <- !app_assoc.
+  rewrite (skipn_app_len (Z.to_nat h)) by lia.
+  rewrite (firstn_app_len (Z.to_nat block)) by lia.
+  unfold w_block_rows, w_DATA. rewrite chunks_concat; [|lia|exact FD].
+  rewrite MK, CE.
+  replace (Z.of_nat (length S1 * Wd) + h - h + 1) with (Z.of_nat (length S1 * Wd) + 1) by lia.
+  replace (Z.of_nat (length S1 * Wd) + h - h + 2) with (Z.of_nat (length S1 * Wd) + 2) by lia.
+  rewrite !getw_firstn by lia. rewrite <- !getw_skipn by lia. rewrite Esk.
+  pose proof (step_words_length c W s Oks) as LS. rewrite ES, four_div_o in LS.
+  rewrite !(getw_app_l (w_step_words c s)) by (unfold block in *; nia).
+  unfold w_step_words. rewrite !(getw_app_l (w_T c s)) by lia. rewrite GT1, GT2. reflexivity.
+Qed.
+
+Lemma map_seq_steps {B} (F : Z -> B) (G : wstep -> B) : forall kn (l : list wstep) a, (kn <= length l)%nat ->
+  (forall S1 s S2, l = S1 ++ s :: S2 -> (length S1 < kn)%nat -> F (Z.of_nat (a + length S1)) = G s) ->
+  map F (map Z.of_nat (seq a kn)) = map G (firstn kn l).
+Proof.
+  induction kn as [|kn IH]; intros l a Hk H; [reflexivity|].
+  destruct l as [|s l]; [cbn in Hk; lia|]. cbn [seq map firstn]. f_equal.
+  - rewrite <- (H [] s l eq_refl ltac:(cbn; lia)). cbn [length]. f_equal. lia.
+  - apply IH; [cbn in Hk; lia|]. intros S1 s' S2 E Hl.
+    rewrite <- (H (s :: S1) s' S2 ltac:(rewrite E; reflexivity) ltac:(cbn; lia)). cbn [length]. f_equal. lia.
+Qed.
+
+(* ---- the reader on EVERY length from the first step's dummy marker on --------------------------------------- *)
+Lemma w_post_eval c s0 rest len : w_wf c = true -> w_steps c = s0 :: rest -> 2 <= w_nx c * w_ny c ->
+  w_body_bytes c + 4 <= len <= 4 * Z.of_nat (length (w_enc c)) ->
+  let given := firstn (Z.to_nat ((len + 3) / 4)) (w_enc c) in
+  w_post (w_ny c) (w_nx c) given len (w_hdr_bytes c - 8) (2 * w_nz c + 1) 4 =
+  if negb (len mod 4 =? 0) then WErr else
+  let k := (len - 4) / w_body_bytes c in
+  if k * w_body_bytes c + 12 * (k - 1) <=? len then WOk (w_view_of (w_truncate_steps (Z.to_nat k) c)) else WErr.
+Proof.
+  intros W Es Hrc Hl. cbn zeta.
+  destruct (sizes_facts c W) as (h & Hh & Hrc0 & Hz & EH & ED & EB & ES).
+  pose proof (proj2 (proj2 (proj2 (w_wf_parts c W)))) as Fok.
+  unfold w_post.
+  change ((4 + 8) / 4) with 3.
+  assert (A2 : (2 * w_nz c + 1) / 2 = w_nz c).
+  { replace (2 * w_nz c + 1) with (1 + w_nz c * 2) by lia. rewrite Z.div_add by lia. reflexivity. }
+  rewrite A2.
+  assert (A3 : (w_ny c * w_nx c * 4 + 8) * 2 * w_nz c + (w_hdr_bytes c - 8) + 8 = w_body_bytes c) by (rewrite EB, EH; lia).
+  rewrite A3.
+  assert (Hb : 0 < w_body_bytes c) by (rewrite EB; nia).
+  replace (w_body_bytes c <=? 0) with false by lia.
+  replace (len <=? 3) with false by lia.
+  replace (len - 3 - 1) with (len - 4) by lia.
+  destruct (len mod 4 =? 0) eqn:M4; [|reflexivity]. cbn [negb].
+  set (k := (len - 4) / w_body_bytes c).
+  assert (Hk1 : 1 <= k) by (unfold k; apply Z.div_le_lower_bound; lia).
+  pose proof (Z.div_mod (len - 4) (w_body_bytes c) ltac:(lia)) as Edm. fold k in Edm.
+  pose proof (Z.mod_pos_bound (len - 4) (w_body_bytes c) ltac:(lia)) as Hmb.
+  replace (k <=? 0) with false by lia.
+  assert (E4 : len = 4 * (len / 4)) by (apply Z.div_exact; lia).
+  set (n := len / 4) in *.
+  assert (Eoff : (w_hdr_bytes c - 8) / 4 + 2 = w_hdr_bytes c / 4).
+  { rewrite EH. replace (4 * h - 8) with (4 * (h - 2)) by lia. rewrite !four_div_o. lia. }
+  rewrite Eoff.
+  set (block := (w_ny c * w_nx c + 2) * 2 * w_nz c).
+  assert (EBb : w_body_bytes c = 4 * (w_hdr_bytes c / 4 + block)) by (rewrite EH, four_div_o, EB; unfold block; lia).
+  assert (EN : Z.of_nat (Z.to_nat ((len + 3) / 4)) = n).
+  { rewrite Z2Nat.id by (apply Z.div_pos; lia). rewrite E4.
+    replace (4 * n + 3) with (3 + n * 4) by lia. rewrite Z.div_add by lia. reflexivity. }
+  destruct (k * w_body_bytes c + 12 * (k - 1) <=? len) eqn:Hc.
+  - (* accepted: k <= number of steps *)
+    rewrite (w_enc_steps c), (concat_length_uniform _ _ (w_steps_uniform c W)), map_length in Hl.
+    rewrite ES, four_div_o in Hl.
+    assert (Hkn : (Z.to_nat k <= length (w_steps c))%nat) by (rewrite EB in *; nia).
+    rewrite (map_seq_steps _ (fun s => Some ((ws_time s, ws_date s), uv_recs (ws_uv s))) (Z.to_nat k) (w_steps c) 0 Hkn).
+    + assert (Ef : forall (l : list wstep) (G : wstep -> (Z * Z) * list (list Z)),
+                forallb (fun p => match p with Some _ => true | None => false end) (map (fun s => Some (G s)) l) = true /\
+                flat_map (fun p => match p with Some x => [x] | None => [] end) (map (fun s => Some (G s)) l) = map G l).
+      { intros l G. induction l as [|x l [I1 I2]]; cbn [map forallb flat_map app]; [split; reflexivity|].
+        rewrite I1, I2. split; reflexivity. }
+      destruct (Ef (firstn (Z.to_nat k) (w_steps c)) (fun s => ((ws_time s, ws_date s), uv_recs (ws_uv s)))) as [F1 F2].
+      rewrite F1, F2. unfold w_view_of, w_truncate_steps. cbn [w_nx w_ny w_nz w_steps].
+      assert (Fk : Forall (wstep_ok c) (firstn (Z.to_nat k) (w_steps c))) by (apply Forall_firstn, Fok).
+      f_equal. f_equal.
+      * rewrite firstn_length. lia.
+      * rewrite map_map. reflexivity.
+      * rewrite map_map. apply map_ext_in. intros s Hs. rewrite Forall_forall in Fk.
+        apply (uv_recs_facts c s (Fk s Hs)).
+      * rewrite map_map. apply map_ext_in. intros s Hs. rewrite Forall_forall in Fk.
+        apply (uv_recs_facts c s (Fk s Hs)).
+    + intros S1 s S2 E HS1. cbn [Nat.add].
+      apply (w_step_view_ok c S1 s S2 _ n W E); [|lia].
+      fold block. rewrite EBb in Hc, Edm. nia.
+  - (* the slice of the last counted step does not fit *)
+    assert (In (w_step_view (firstn (Z.to_nat ((len + 3) / 4)) (w_enc c)) n (w_hdr_bytes c / 4) block 3
+                  (w_ny c * w_nx c) (k - 1))
+               (map (w_step_view (firstn (Z.to_nat ((len + 3) / 4)) (w_enc c)) n (w_hdr_bytes c / 4) block 3 (w_ny c * w_nx c))
+                    (map Z.of_nat (seq 0 (Z.to_nat k))))) as Hin.
+    { apply in_map. apply in_map_iff. exists (Z.to_nat (k - 1)). split; [lia|]. apply in_seq. lia. }
+    assert (En : w_step_view (firstn (Z.to_nat ((len + 3) / 4)) (w_enc c)) n (w_hdr_bytes c / 4) block 3
+                   (w_ny c * w_nx c) (k - 1) = None).
+    { unfold w_step_view.
+      replace ((k - 1 + 1) * (w_hdr_bytes c / 4) + (k - 1) * block + (k - 1) * 3 + block <=? n) with false; [reflexivity|].
+      rewrite EBb in Hc. nia. }
+    rewrite En in Hin.
+    destruct (forallb _ _) eqn:Ff; [|reflexivity]. rewrite forallb_forall in Ff. specialize (Ff None Hin). discriminate.
+Qed.
+
+Lemma w_enc_length c : w_wf c = true -> 4 * Z.of_nat (length (w_enc c)) = Z.of_nat (length (w_steps c)) * w_step_bytes c.
+Proof.
+  intros W. destruct (sizes_facts c W) as (h & Hh & Hrc0 & Hz & _ & _ & _ & ES).
+  rewrite (w_enc_steps c), (concat_length_uniform _ _ (w_steps_uniform c W)), map_length. rewrite ES, four_div_o.
+  assert (0 < h + 2 * w_nz c * (w_nx c * w_ny c + 2) + 3) by nia.
+  rewrite Nat2Z.inj_mul, Z2Nat.id by lia. lia.
+Qed.
+
+(* EVERY cut from the first step's dummy marker on (reader called with the prefix) *)
+Lemma w_mm_read_len c s0 rest len : w_wf c = true -> w_steps c = s0 :: rest -> 2 <= w_nx c * w_ny c ->
+  w_body_bytes c + 4 <= len <= 4 * Z.of_nat (length (w_enc c)) ->
+  w_mm_read (w_ny c) (w_nx c) (firstn (Z.to_nat ((len + 3) / 4)) (w_enc c)) len =
+  if negb (len mod 4 =? 0) then WErr else
+  let k := (len - 4) / w_body_bytes c in
+  if k * w_body_bytes c + 12 * (k - 1) <=? len then WOk (w_view_of (w_truncate_steps (Z.to_nat k) c)) else WErr.
+Proof.
+  intros W Es Hrc Hl. rewrite (w_head c s0 rest len W Es Hrc) by lia. apply (w_post_eval c s0 rest len W Es Hrc Hl).
+Qed.
+
+(* whole files: read as their content whenever the step count is small against the step size (12 * steps < body + 4);
+   beyond that the reader's step count, which never counts the dummy records, runs ahead of the file *)
+Lemma w_mm_read_enc c : w_wf c = true -> w_steps c <> [] -> 2 <= w_nx c * w_ny c ->
+  12 * Z.of_nat (length (w_steps c)) < w_body_bytes c + 4 ->
+  w_mm_read (w_ny c) (w_nx c) (w_enc c) (4 * Z.of_nat (length (w_enc c))) = WOk (w_view_of c).
+Proof.
+  intros W Hne Hrc Hsm. destruct (w_steps c) as [|s0 rest] eqn:Es; [congruence|].
+  destruct (sizes_facts c W) as (h & Hh & Hrc0 & Hz & EH & ED & EB & ES).
+  pose proof (w_enc_length c W) as EL. rewrite Es in EL. cbn [length] in *.
+  set (nn := Z.of_nat (S (length rest))) in *. assert (1 <= nn) by lia.
+  pose proof (w_mm_read_len c s0 rest (4 * Z.of_nat (length (w_enc c))) W Es Hrc ltac:(rewrite EL, ES, EB; nia)) as R.
+  replace (Z.to_nat ((4 * Z.of_nat (length (w_enc c)) + 3) / 4)) with (length (w_enc c)) in R.
+  2:{ replace (4 * Z.of_nat (length (w_enc c)) + 3) with (3 + Z.of_nat (length (w_enc c)) * 4) by lia.
+      rewrite Z.div_add by lia. change (3 / 4) with 0. lia. }
+  rewrite firstn_all in R. rewrite R. clear R.
+  replace ((4 * Z.of_nat (length (w_enc c))) mod 4) with 0 by (rewrite Z.mul_comm, Z.mod_mul; lia).
+  cbn [Z.eqb negb]. cbn zeta. rewrite EL.
+  assert (Ek : (nn * w_step_bytes c - 4) / w_body_bytes c = nn).
+  { symmetry. apply (Z.div_unique _ _ nn (12 * nn - 4)); rewrite ES, EB in *; nia. }
+  rewrite Ek. replace (nn * w_body_bytes c + 12 * (nn - 1) <=? nn * w_step_bytes c) with true by (rewrite ES, EB; nia).
+  unfold w_truncate_steps. replace (Z.to_nat nn) with (length (w_steps c)) by (rewrite Es; cbn [length]; lia).
+  rewrite firstn_all. destruct c; reflexivity.
+Qed.
+
+(* ======================================================================================
+   The record reader (wind/Read.py): translated seek arithmetic against the specification layout
+   ====================================================================================== *)
+(* byte offset of the U (duv = 1) / V (duv = 2) record of layer k (1-based) of step t (0-based) *)
+Definition w_spec_record_offset (hdr data nz t k duv : Z) : Z :=
+  t * (hdr + 2 * nz * data + 12) + hdr + (k - 1) * 2 * data + (if duv =? 2 then data else 0).
+
+Lemma wr_recordposition_spec (self : wr_self) t k duv d tm : 0 < wr_nlayers self -> duv = 1 \/ duv = 2 ->
+  wr_data_start_byte self = 0 ->
+  Z.quot (tt_timediff (wr_start_date self, wr_start_time self) (d, tm) 2400) (wr_time_step self) = t ->
+  wr_recordposition self d tm k duv
+  = w_spec_record_offset (wr_padded_time_hdr_size self) (wr_padded_size self) (wr_nlayers self) t k duv.
+Proof.
+  intros Hn Hd E0 Eq. unfold wr_recordposition, wr_timerecords, wr_layerrecords, w_spec_record_offset.
+  rewrite Eq, E0. replace (wr_nlayers self + 1 - 1) with (wr_nlayers self) by lia.
+  rewrite Z.quot_mul by lia.
+  destruct Hd as [-> | ->]; cbn [Z.eqb Pos.eqb negb]; lia.
+Qed.
+
+Lemma uv_recs_app a b : uv_recs (a ++ b) = uv_recs a ++ uv_recs b.
+Proof. unfold uv_recs. rewrite map_app, concat_app. reflexivity. Qed.
+
+(* both wind readers present the same cells: the record at the TRANSLATED position of (step, layer, u/v) holds the U resp. V
+   cells of that layer, which the Memmap model presents as U[t][k] / V[t][k] (w_mm_read_enc) *)
+Lemma w_readers_agree c (self : wr_self) S1 s S2 P1 u v P2 d tm duv : w_wf c = true ->
+  w_steps c = S1 ++ s :: S2 -> ws_uv s = P1 ++ (u, v) :: P2 ->
+  wr_nlayers self = w_nz c -> wr_data_start_byte self = 0 ->
+  wr_padded_time_hdr_size self = w_hdr_bytes c -> wr_padded_size self = w_data_bytes c ->
+  Z.quot (tt_timediff (wr_start_date self, wr_start_time self) (d, tm) 2400) (wr_time_step self)
+    = Z.of_nat (length S1) ->
+  duv = 1 \/ duv = 2 ->
+  w_cells_at (w_enc c) (wr_recordposition self d tm (Z.of_nat (length P1) + 1) duv) (w_nx c * w_ny c)
+  = if duv =? 1 then u else v.
+Proof.
+  intros W Es Ep En E0 EHd EDt Eq Hd.
+  destruct (sizes_facts c W) as (h & Hh & Hrc0 & Hz & EH & ED & EB & ES).
+  rewrite (wr_recordposition_spec self _ _ duv d tm ltac:(lia) Hd E0 Eq), En, EHd, EDt.
+  pose proof (proj2 (proj2 (proj2 (w_wf_parts c W)))) as Fok. rewrite Es in Fok.
+  assert (Oks : wstep_ok c s) by (apply Forall_app in Fok as [_ F]; apply (Forall_inv F)).
+  destruct (hdr_words c s) as (LT & _). rewrite EH, four_div_o in LT.
+  destruct (uv_recs_facts c s Oks) as (_ & FR & _ & _).
+  set (Wd := Z.to_nat (w_step_bytes c / 4)).
+  assert (EWd : Z.of_nat Wd = h + 2 * w_nz c * (w_nx c * w_ny c + 2) + 3) by (unfold Wd; rewrite ES, four_div_o; lia).
+  assert (Esk : skipn (length S1 * Wd) (w_enc c) = w_step_words c s ++ concat (map (w_step_words c) S2)).
+  { rewrite w_enc_steps. rewrite (skipn_concat_uniform_gen _ _ _ (w_steps_uniform c W)).
+    rewrite Es, map_app. rewrite <- (map_length (w_step_words c) S1) at 1. rewrite skipn_app_exact. reflexivity. }
+  (* the records of the step before the requested one *)
+  rewrite Ep, uv_recs_app in FR. apply Forall_app in FR as [FR1 FR2].
+  assert (LP1 : Z.of_nat (length (concat (map frame1 (uv_recs P1)))) = Z.of_nat (length P1) * 2 * (w_nx c * w_ny c + 2)).
+  { rewrite (concat_length_uniform (Z.to_nat (w_nx c * w_ny c + 2))).
+    - rewrite map_length. unfold uv_recs. rewrite (concat_length_uniform 2); [rewrite map_length; nia|].
+      apply Forall_forall. intros x Hx. apply in_map_iff in Hx as (p & <- & _). reflexivity.
+    - apply Forall_forall. intros b Hb. apply in_map_iff in Hb as (r & <- & Hr). rewrite Forall_forall in FR1.
+      specialize (FR1 r Hr). rewrite frame1_length. cbn beta in FR1. lia. }
+  pose proof (Forall_inv FR2) as Lu. pose proof (Forall_inv (Forall_inv_tail FR2)) as Lv. cbn beta in Lu, Lv. cbn [fst snd] in Lu, Lv.
+  unfold w_cells_at, w_spec_record_offset. rewrite EH, ED.
+  set (off := if duv =? 2 then 4 * (w_nx c * w_ny c + 2) else 0).
+  assert (Eoffw : (Z.of_nat (length S1) * (4 * h + 2 * w_nz c * (4 * (w_nx c * w_ny c + 2)) + 12) + 4 * h
+                   + (Z.of_nat (length P1) + 1 - 1) * 2 * (4 * (w_nx c * w_ny c + 2)) + off) / 4 + 1
+                  = Z.of_nat (length S1 * Wd) + (h + Z.of_nat (length P1) * 2 * (w_nx c * w_ny c + 2) + off / 4 + 1)).
+  { unfold off. destruct (duv =? 2).
+    - rewrite four_div_o.
+      replace (Z.of_nat (length S1) * (4 * h + 2 * w_nz c * (4 * (w_nx c * w_ny c + 2)) + 12) + 4 * h
+               + (Z.of_nat (length P1) + 1 - 1) * 2 * (4 * (w_nx c * w_ny c + 2)) + 4 * (w_nx c * w_ny c + 2))
+        with (4 * (Z.of_nat (length S1 * Wd) + h + Z.of_nat (length P1) * 2 * (w_nx c * w_ny c + 2) + (w_nx c * w_ny c + 2))) by nia.
+      rewrite four_div_o. lia.
+    - change (0 / 4) with 0.
+      replace (Z.of_nat (length S1) * (4 * h + 2 * w_nz c * (4 * (w_nx c * w_ny c + 2)) + 12) + 4 * h
+               + (Z.of_nat (length P1) + 1 - 1) * 2 * (4 * (w_nx c * w_ny c + 2)) + 0)
+        with (4 * (Z.of_nat (length S1 * Wd) + h + Z.of_nat (length P1) * 2 * (w_nx c * w_ny c + 2))) by nia.
+      rewrite four_div_o. lia. }
+  rewrite Eoffw.
+  replace (Z.to_nat (Z.of_nat (length S1 * Wd) + (h + Z.of_nat (length P1) * 2 * (w_nx c * w_ny c + 2) + off / 4 + 1)))
+    with (Z.to_nat (off / 4 + 1) + (length (w_T c s ++ concat (map frame1 (uv_recs P1))) + length S1 * Wd))%nat.
+  2:{ rewrite app_length. assert (0 <= off / 4) by (unfold off; destruct (duv =? 2); [rewrite four_div_o; lia|cbn; lia]). lia. }
+  rewrite skipn_plus_w, skipn_plus_w, Esk.
+  unfold w_step_words at 1. unfold w_DATA at 1. rewrite Ep, uv_recs_app, map_app, concat_app.
+  replace ((w_T c s ++ (concat (map frame1 (uv_recs P1)) ++ concat (map frame1 (uv_recs ((u, v) :: P2)))) ++ [4; w_dummy c; 4])
+           ++ concat (map (w_step_words c) S2))
+    with ((w_T c s ++ concat (map frame1 (uv_recs P1))) ++ concat (map frame1 (uv_recs ((u, v) :: P2))) ++ [4; w_dummy c; 4]
+          ++ concat (map (w_step_words c) S2)) by (rewrite <- !app_assoc; reflexivity).
+  rewrite skipn_app_exact.
+  unfold uv_recs at 1. cbn [map concat app fst snd]. fold (uv_recs P2).
+  unfold off. destruct Hd as [-> | ->]; cbn [Z.eqb Pos.eqb].
+  - change (Z.to_nat (0 / 4 + 1)) with 1%nat. unfold frame1 at 1. cbn [app skipn].
+    rewrite <- !app_assoc. apply firstn_app_len. lia.
+  - rewrite four_div_o.
+    replace (Z.to_nat (w_nx c * w_ny c + 2 + 1)) with (1 + length (frame1 u))%nat by (rewrite frame1_length; lia).
+    rewrite <- app_assoc. rewrite skipn_add_app_o. unfold frame1 at 1. cbn [app skipn].
+    rewrite <- !app_assoc. apply firstn_app_len. lia.
+Qed.
